@@ -1,4 +1,4 @@
-REPO_COMMITS = ["0e45a8e", "f51d74e", "e08c0a5", "7c6f8e4", "33cf0bf"]
+REPO_COMMITS = ["0e45a8e", "f51d74e", "e08c0a5", "7c6f8e4", "33cf0bf", "a187bb0"]
 NOT_APPLICABLE = {}
 CHECKS = {
  "C05": dict(
@@ -17,4 +17,8 @@ CHECKS = {
   text="Held-on-what-was-observed: a wrapper on gauleg checks every observed rule (also those computed inside QGauss/QGauss2) for interior, monotone, symmetric abscissae, signed symmetric weights summing to b-a, agreement with numpy's leggauss and exactness on random polynomials up to degree 2n-1 (long-double Horner); wrappers on QGauss.integrate_func/integrate_data and QGauss2.integrate_func compare each result of a per-object call history with the weighted sum formed from the reference rule for the point count then in effect. n = 1..200 is enumerated.",
   note="Trusts numpy.polynomial.legendre.leggauss and long-double arithmetic. Integrator comparison allows the 1e-9 band of the statement scaled by max|f| and max|f'|.",
   technique="API-boundary monitor with reference-rule oracle; per-object call histories judged against fresh reference rules; ASan+UBSan replay"),
+ "C06": dict(
+  text="Held-on-what-was-observed: wrappers on match, match_multi, unique and rem_dup judge each observed call against a dict/Counter brute-force model on the Python values of the arguments: soundness, completeness, exactly-once, ordering by second-array position, presorted equivalence, scalar acceptance, rejection of a repeated first array, one index per distinct value carrying the maximum flag.",
+  note="Trusts Python dict/Counter and numpy tolist(). Same-dtype arrays, no NaN, no empty input; presorted=True only with a sorted first array.",
+  technique="API-boundary monitor with brute-force dictionary model"),
 }
